@@ -125,7 +125,7 @@ pub fn run(ctx: &Ctx) -> Report {
                 profile.max_depth = 6;
                 profile.max_nodes = 40;
             }
-            let opts = HistoryOpts { profile: profile.clone(), len: rng.range(10, if sweep { 14 } else { 40 }) as usize, sweep, matrix: (i == 0 && w < 2) || (prop == "C12" && i % 8 == 0), api: match i % 5 { 3 => ApiKind::Bech32, 4 => ApiKind::Bech32m, 1 if i % 10 == 6 => ApiKind::Plain, _ => ApiKind::Std }, prestored: i % 4 == 1, one_address_per_code: i % 12 == 7 };
+            let opts = HistoryOpts { profile: profile.clone(), len: rng.range(10, if sweep { 14 } else { 40 }) as usize, sweep, matrix: (i == 0 && w < 2) || (prop == "C12" && i % 8 == 0), api: match i % 5 { 3 => ApiKind::Bech32, 4 => ApiKind::Bech32m, 1 if i % 10 == 6 => ApiKind::Plain, _ => ApiKind::Std }, prestored: i % 4 == 1, one_address_per_code: i % 12 == 7 || i % 20 == 16 };
             let (case, discs) = run_history(&mut rng, &opts, &mut rep, &prop);
             rep.bump("e1/histories");
             if w == 0 && i == 1 {
